@@ -592,10 +592,16 @@ def glist_obl(name, defines, tiers, what, timeout=1500, mem_gb=20):
                bounds={'records per list': 2, 'strings': '<= 2 bytes', 'RR hint mask': 'all 2^8 values (symbolic)', 'block tables': 'empty before the call', 'record values': what}, functions=GLIST_FUNCS)
 
 
-GLIST_OBLS = [glist_obl('generic_lists_rr_distinct', ['GLIST_RR=1', 'GLIST_CONCRETE=1'], ('thorough',), 'RR list; names, class/types, RDATA bytes concrete and distinct; presence of TTL/RDATA per record and TTL values symbolic'),
+GLIST_OBLS = [glist_obl('generic_lists_rr_ttl', ['GLIST_RR=1', 'GLIST_CONCRETE=3'], ('thorough',), 'RR list; both records with the same concrete name and class/type, no RDATA; presence of TTL per record, TTL values and the hint mask symbolic', timeout=1200),
+              glist_obl('generic_lists_rr_distinct', ['GLIST_RR=1', 'GLIST_CONCRETE=1'], ('thorough',), 'RR list; names, class/types, RDATA bytes concrete and distinct; presence of TTL/RDATA per record and TTL values symbolic'),
               glist_obl('generic_lists_rr_equal', ['GLIST_RR=1', 'GLIST_CONCRETE=2'], ('thorough',), 'RR list; both records with the same name and class/type (de-duplicated table entries); presence of TTL/RDATA per record and TTL values symbolic'),
               glist_obl('generic_lists_q', ['GLIST_RR=0', 'GLIST_CONCRETE=1'], ('thorough',), 'question list; names and class/types concrete and distinct'),
               glist_obl('generic_lists_symbolic', [], ('thorough',), 'RR or question list (symbolic choice), every member of both records symbolic; may end without a verdict (20 GB exhausted after 828 s in round 2): reported inconclusive', timeout=3000, mem_gb=30)]
-for _p in ('C11', 'C01', 'C04'):
+# quick tier of C11 only (measured on a loaded machine: rr_ttl 719 s, q about 600 s); C01 / C04 run all of them in their thorough tier
+GLIST_QUICK_C11 = [glist_obl('generic_lists_rr_ttl', ['GLIST_RR=1', 'GLIST_CONCRETE=3'], ('quick', 'thorough'), 'RR list; both records with the same concrete name and class/type, no RDATA; presence of TTL per record, TTL values and the hint mask symbolic', timeout=1500),
+                   glist_obl('generic_lists_q', ['GLIST_RR=0', 'GLIST_CONCRETE=1'], ('quick', 'thorough'), 'question list; names and class/types concrete and distinct', timeout=1500)]
+PROPS['C11']['obligations'] = PROPS['C11']['obligations'] + GLIST_QUICK_C11 + [o_ for o_ in GLIST_OBLS if o_.name not in ('generic_lists_rr_ttl', 'generic_lists_q')]
+for _p in ('C01', 'C04'):
     PROPS[_p]['obligations'] = PROPS[_p]['obligations'] + GLIST_OBLS
+for _p in ('C11', 'C01', 'C04'):
     PROPS[_p]['assumptions'] = list(PROPS[_p].get('assumptions', [])) + ['generic_lists_*: model containers (stubs/), lists of two records, tables empty before the call; quick tier: names / class-types / RDATA bytes concrete, presence and TTL values and hint mask symbolic']
